@@ -399,6 +399,7 @@ PROPS = {
                       "jsonrpc2.go, and the strconv / net/url functions they call.",
     },
     "C16": {
+        "generated": ["godone2v"],
         "onep": True,
         "kcheck": True,
         "rule": "forced schedules on the in-memory server rig: systematic part = one request of every kind (normal, one-way, "
@@ -411,7 +412,7 @@ PROPS = {
         "theorems": ["C16_drains_what_was_read", "C16_drained_state", "C16_connections_closed_after_the_wait", "C16_count_exact",
                      "C16_wait_ends_when_idle", "C16_nothing_starts_after_completion", "C16_serve_returns_server_closed",
                      "C16_serve_returns_after_completion", "C16_done_closed_at_most_once", "C16_one_shutdown_runs",
-                     "C16_later_shutdown_returns_at_once"],
+                     "C16_later_shutdown_returns_at_once", "C16_every_closing_of_done_stands_under_the_mutex", "C16_shutdown_and_close_never_close_done_twice"],
         "assumptions": ["'read' is the completion of readRequest's decode-and-count step: the few instructions between the last byte "
                         "being consumed and the atomic increment (no call-out, no lock, no blocking operation) are one model event "
                         "and cannot be exhibited by the model",
